@@ -14,6 +14,7 @@ import Apko.Proofs.Lemmas.TarWalk
 import Apko.Proofs.Lemmas.FSPosixDemo
 import Apko.Proofs.Lemmas.FSPosixSim
 import Apko.Proofs.Lemmas.FSPosixLF
+import Apko.Proofs.Lemmas.FSDisk
 import Apko.Generated.FS
 /-! C17 — the virtual file systems behave like a file system (theorems over `Model/FS.lean`) -/
 namespace Apko.C17
@@ -384,6 +385,58 @@ theorem hardlinks_share (c : Cfg) (fs : FS) (o n : Text)
               by_cases hpt : pi = t
               · subst hpt; simp [hpl, lookup_setChild]
               · simp [hpt, hpl, lookup_setChild]
+
+/-! ### DirFS: hard links share content on disk (round 4)
+
+`DirFS` = an overlay `memfs` (names, kinds, modes; the machine above fed with empty contents) + the host's
+directory (`Disk`, `Model/FS.lean`: names ↦ inodes ↦ bytes, driven by the calls `dirFS.WriteFile` / `Link` /
+`Create` / `OpenFile` / `Remove` make — ties `tie_stmtsDirfs_*`).  The driver runs both for the `dirfs-hl` cases:
+the real `DirFS` must show, on disk (`os.SameFile`, `Nlink`, bytes) and through its interface, what `Disk` shows
+(Impl) and what the reference file system's `linkView` shows (Spec). -/
+
+/-- **dirfs_hardlinks_share_content**: whatever is written through one name of an inode — `WriteFile` on the
+existing name, truncation by `OpenFile(O_TRUNC)` / `Create`, `Write` through a handle — is what every other
+name of the inode reads. -/
+theorem dirfs_hardlinks_share_content (d : Disk) (p q : Text) (i : Nat)
+    (hp : d.ino p = some i) (hq : d.ino q = some i) (hl : i < d.inodes.length) :
+    (∀ b, (d.writeFile p b).read q = some b) ∧
+    (∀ flag, oTrunc flag = true → (d.openOk p flag).read q = some []) ∧
+    (∀ h off app b, d.handles[h]? = some (some (i, off, app)) →
+      (d.write h b).read q = some (writeAt (d.inodes.getD i []) (if app then (d.inodes.getD i []).length else off) b)) :=
+  ⟨fun b => Disk.writeFile_shared d p q i b hp hq hl,
+   fun flag ht => Disk.openTrunc_shared d p q i flag hp hq hl ht,
+   fun h off app b hh => Disk.write_shared d h q i off app b hh hq hl⟩
+
+/-- the hypotheses are met by a state `DirFS` reaches: `WriteFile("f")`, `Link("f","h1")` -/
+example : let d := ((({} : Disk).apply (.writeFile "f".toList "old".toList 0o644) true).apply (.link "f".toList "h1".toList) true)
+    d.ino "f".toList = some 0 ∧ d.ino "h1".toList = some 0 ∧ 0 < d.inodes.length ∧ d.nlink 0 = 2 := by decide
+
+/-- **dirfs_link_same_inode**: `os.Link` gives the new name the old name's inode and the inode one name more
+(what `os.SameFile` and `Nlink` report) without touching any bytes -/
+theorem dirfs_link_same_inode (d d2 : Disk) (o n : Text) (h : d.link o n = some d2) :
+    ∃ i, d.ino o = some i ∧ d2.ino o = some i ∧ d2.ino n = some i ∧ d2.nlink i = d.nlink i + 1 ∧ d2.inodes = d.inodes :=
+  Disk.link_shares d d2 o n h
+
+/-- **dirfs_replace_would_split**: were an existing file replaced by a new one under the same name (temporary
+file + rename, the usual "atomic write"), the other names of the old inode would keep the old bytes — the
+property's "hard links share content" fails.  `DirFS.WriteFile` therefore has to write in place. -/
+theorem dirfs_replace_would_split :
+    ∃ (d : Disk) (p q : Text) (b : Text), d.ino p = d.ino q ∧ (d.ino p).isSome ∧
+      (d.writeFile p b).read q = some b ∧ (d.replaceFile p b).read q ≠ some b := Disk.replace_splits
+
+/-- the disk states `DirFS` reaches: any sequence of calls, each succeeding or failing -/
+def diskRun : Disk → List (Op × Bool) → Disk
+  | d, [] => d
+  | d, (op, ok) :: rest => diskRun (d.apply op ok) rest
+
+/-- **disk_inv_reachable** (`inv_step` for the disk half): in every reachable disk state every name refers to an
+inode that exists and no name is listed twice -/
+theorem disk_inv_reachable (calls : List (Op × Bool)) : (diskRun {} calls).Inv := by
+  suffices h : ∀ (cs : List (Op × Bool)) (d : Disk), d.Inv → (diskRun d cs).Inv from h calls {} Disk.Inv.empty
+  intro cs
+  induction cs with
+  | nil => intro d hd; exact hd
+  | cons c rest ih => intro d hd; exact ih _ (Disk.inv_apply d c.1 c.2 hd)
 
 /-! ### loop detection -/
 
@@ -818,5 +871,38 @@ theorem tie_subJoins : Generated.subJoins = (["Open",
   "RemoveXattr",
   "ListXattrs"] : List String) := by rfl
 theorem tie_subPasses : Generated.subPasses = ([] : List String) := by rfl
+/-- DirFS's disk calls for regular files, statement by statement (the `Disk` model mirrors them: `os.WriteFile`
+in place, `os.Link`, `os.Create`, `os.Remove`, `os.ReadFile`) -/
+theorem tie_stmtsDirfs_WriteFile : Generated.stmtsDirfs_WriteFile = (["var ( memContent []byte )",
+  "if _, err := f.sanitizePath(name); err != nil { return err }",
+  "if f.createOnDisk(name) { if err := os.WriteFile(filepath.Join(f.base, name), b, mode); err != nil { return err } } else { memContent = b }",
+  "return f.overrides.WriteFile(name, memContent, mode)"] : List String) := by rfl
+theorem tie_stmtsDirfs_Link : Generated.stmtsDirfs_Link = (["if _, err := f.sanitizePath(newname); err != nil { return err }",
+  "target := filepath.Join(f.base, oldname)",
+  "target = filepath.Clean(target)",
+  "if !isWithin(f.base, target) { return fmt.Errorf(\"hardlink target %s is outside of the filesystem\", target) }",
+  "if f.createOnDisk(newname) { if err := os.Link(target, filepath.Join(f.base, newname)); err != nil { return err } }",
+  "return f.overrides.Link(oldname, newname)"] : List String) := by rfl
+theorem tie_stmtsDirfs_ReadFile : Generated.stmtsDirfs_ReadFile = (["if _, err := f.sanitizePath(name); err != nil { return nil, err }",
+  "if f.caseSensitiveOnDisk(name) { return os.ReadFile(filepath.Join(f.base, name)) }",
+  "return f.overrides.ReadFile(name)"] : List String) := by rfl
+theorem tie_stmtsDirfs_Create : Generated.stmtsDirfs_Create = (["var ( file File err error )",
+  "if _, err := f.sanitizePath(name); err != nil { return nil, err }",
+  "file, err = f.overrides.Create(name)",
+  "if err != nil { return nil, err }",
+  "if f.createOnDisk(name) { _ = file.Close() file, err = os.Create(filepath.Join(f.base, name)) if err != nil { return nil, err } }",
+  "return file, err"] : List String) := by rfl
+theorem tie_stmtsDirfs_Remove : Generated.stmtsDirfs_Remove = (["if _, err := f.sanitizePath(name); err != nil { return err }",
+  "if err := f.overrides.Remove(name); err != nil { return err }",
+  "if f.removeOnDisk(name) { return os.Remove(filepath.Join(f.base, name)) }",
+  "return nil"] : List String) := by rfl
+/-- the size a `FileInfo` reports and every test of a node's tar entry (`effectiveSize` / `teLive` of the model:
+both fall back to the package on EMPTY data, `openFile` only for a non-empty package file) -/
+theorem tie_stmtsMemfs_Size : Generated.stmtsMemfs_Size = (["return int64(len(m.data))"] : List String) := by rfl
+theorem tie_stmtsTarfs_Size : Generated.stmtsTarfs_Size = (["if m.node.te != nil && len(m.data) == 0 { return m.node.te.header.Size }",
+  "return int64(len(m.data))"] : List String) := by rfl
+theorem tie_teTests_memfs : Generated.teTestsMemfs = ([] : List String) := by rfl
+theorem tie_teTests_tarfs : Generated.teTestsTarfs = (["anode.te != nil && len(anode.data) == 0 && anode.te.header.Size != 0",
+  "m.node.te != nil && len(m.data) == 0"] : List String) := by rfl
 
 end Apko.C17
